@@ -126,6 +126,23 @@ Theorem C11_copy_dir_within_instance : forall (lg : list (nat * fscall)) (ft : o
     (forall q, below p' q -> is_Some (s' !! q) -> exists y, is_Some (s !! y) /\ below p y /\ q = tr p p' y).
 Proof. exact copy_dir_same. Qed.
 
+(** move_dir within one MemoryFS instance (MemoryFS has no native move_dir: the copy, then remove_dir_all of the
+    source): the destination subtree is the exact copy, NO TRACE of the source is left (p and everything below
+    it is gone), every other entry keeps its type and bytes *)
+Theorem C11_move_dir_within_instance : forall (lg : list (nat * fscall)) (ft : option (nat * nat)) (s : mstate)
+    (hs : list hstate) (p p' : path) (fuel : nat),
+  wf s -> p <> [] -> is_dir s p ->
+  p' <> [] -> is_dir s (removelast p') -> s !! p' = None -> ~ below p p' ->
+  length (desc s p) < fuel -> (forall k, k ∈ desc s p -> length k < length p + fuel) ->
+  exists s' hs',
+    run bhandler (vp_move_dir fuel mv p mv p') (mstore s hs lg ft) = (mstore s' hs' lg ft, Ok tt) /\
+    wf s' /\ is_dir s' p' /\
+    (forall y, is_Some (s !! y) -> below p y -> absf <$> (s' !! tr p p' y) = absf <$> (s !! y)) /\
+    (forall q, under p q -> s' !! q = None) /\
+    (forall q, q <> p' -> ~ below p' q -> ~ under p q -> absf <$> (s' !! q) = absf <$> (s !! q)) /\
+    (forall q, below p' q -> is_Some (s' !! q) -> exists y, is_Some (s !! y) /\ below p y /\ q = tr p p' y).
+Proof. exact move_dir_same. Qed.
+
 (** the listing of a directory depends only on which entries exist (what lets the walk ignore the access-time
     stamps of the files already copied) *)
 Theorem C11_listing_ignores_values : forall (s : mstate) (x : path) (f g : memfile) (p : path),
@@ -167,3 +184,4 @@ Print Assumptions C11_copy_dir_across_instances.
 Print Assumptions C11_copy_dir_example.
 Print Assumptions C11_listing_ignores_values.
 Print Assumptions C11_copy_dir_within_instance.
+Print Assumptions C11_move_dir_within_instance.
